@@ -25,7 +25,7 @@ CONSTANTS WalkerCapturesNext,   \* FALSE reproduces the lost-siblings defect (fi
 \* kinds this model covers (layout tables need the tbody/tr/td wrappers and are left to the black-box checks)
 ModelKinds == AllKinds \ {"LT"}
 
-BlockKinds2   == {"P", "DIV", "H", "UL", "OL", "LI", "BQ", "PRE", "MRK"}
+BlockKinds2   == {"P", "DIV", "H", "UL", "OL", "LI", "BQ", "PRE", "MRK", "BODY"}
 MediaLeaf     == {"IMG", "VID", "EMB", "FIG", "FIGL", "TW"}
 SilentKinds   == {"HID", "HIN", "SKS"}
 AnchorKinds   == {"A", "AJ"}
@@ -40,40 +40,55 @@ Act(doc, i) ==
     IN  [flush |-> blk, lvl |-> blk \/ k \in AnchorKinds, anchor |-> k \in AnchorKinds, node |-> i]
 
 HasWordBelow(doc, i) == \E j \in (i+1)..SubtreeEnd(doc, i) : HasWords(doc[j].k) \/ doc[j].k = "LNK"
-\* isElementWithoutContent: no text, and no child other than br (div, section, header, h1..h6)
+\* isElementWithoutContent (div, section, header, h1..h6): no text below, and either no element
+\* child at all or as many element children as there are br elements anywhere below (the code
+\* compares the number of CHILD elements with the number of DESCENDANT br/hr elements)
+ElemChildren(doc, i) == {j \in Children(doc, i) : doc[j].k \notin TextKinds \cup {"CMT"}}
+BrBelow(doc, i)      == {j \in (i+1)..SubtreeEnd(doc, i) : doc[j].k = "BR"}
 WithoutContent(doc, i) ==
     /\ doc[i].k \in {"DIV", "H", "MRK"}
     /\ ~HasWordBelow(doc, i)
-    /\ \A j \in Children(doc, i) : doc[j].k \in {"BR", "W", "CMT"}
+    /\ (ElemChildren(doc, i) = {} \/ Cardinality(ElemChildren(doc, i)) = Cardinality(BrBelow(doc, i)))
 
 \* ---- builder state ---------------------------------------------------------
+\* log: the builder calls made so far, one record per call (what the verif hooks of
+\* internal/webdoc/document-builder.go record); only used for the fidelity replay
 S0 == [cur |-> 1, open |-> <<>>, acts |-> <<>>, lvl |-> 0, flush |-> FALSE, group |-> 0,
-       buf |-> <<>>, elems |-> <<>>, done |-> FALSE]
+       buf |-> <<>>, elems |-> <<>>, done |-> FALSE, log |-> <<>>]
+
+Ev(e, k, n) == [e |-> e, k |-> k, n |-> n]
+Logged(s, ev) == [s EXCEPT !.log = Append(@, ev)]
 
 WordNode(doc, i) == HasWords(doc[i].k) \/ doc[i].k = "LNK"
 
 \* flushBlock(group): emit a Text element iff the window holds a word-bearing node
+FirstWord(doc, buf) == buf[CHOOSE n \in 1..Len(buf) : WordNode(doc, buf[n]) /\ \A m \in 1..(n-1) : ~WordNode(doc, buf[m])]
 FlushBlock(doc, s, g) ==
     IF \E n \in 1..Len(s.buf) : WordNode(doc, s.buf[n])
-    THEN [s EXCEPT !.elems = Append(@, [t |-> "text", nodes |-> s.buf, g |-> g]), !.buf = <<>>]
+    THEN [Logged(s, Ev("flush", "", FirstWord(doc, s.buf))) EXCEPT !.elems = Append(@, [t |-> "text", nodes |-> s.buf, g |-> g]), !.buf = <<>>]
     ELSE [s EXCEPT !.buf = <<>>]
 
 \* AddTextNode / AddLineBreak
 AddText(doc, s, i) ==
-    LET s1 == IF s.flush THEN [FlushBlock(doc, s, s.group) EXCEPT !.group = s.group + 1, !.flush = FALSE] ELSE s
+    LET s0 == Logged(s, Ev(IF doc[i].k = "BR" THEN "br" ELSE "text", "", IF WordNode(doc, i) THEN i ELSE 0))
+        s1 == IF s0.flush THEN [FlushBlock(doc, s0, s0.group) EXCEPT !.group = s0.group + 1, !.flush = FALSE] ELSE s0
     IN  [s1 EXCEPT !.buf = Append(@, i)]
 
-StartNode(doc, s, i) ==
+StartNode(doc, s0, i) ==
     LET a == Act(doc, i)
+        s == Logged(s0, Ev("start", doc[i].k, 0))
     IN  [s EXCEPT !.open = Append(@, i), !.acts = Append(@, a),
                   !.lvl = @ + (IF a.lvl THEN 1 ELSE 0), !.flush = @ \/ a.flush]
 
-EndNode(doc, s) ==
-    LET a  == Last(s.acts)
+EndNode(doc, s0) ==
+    LET a  == Last(s0.acts)
+        s  == Logged(s0, Ev("end", "", 0))
         s1 == IF s.flush \/ a.flush THEN [FlushBlock(doc, s, s.group) EXCEPT !.group = s.group + 1] ELSE s
     IN  [s1 EXCEPT !.open = Front(@), !.acts = Front(@), !.lvl = @ - (IF a.lvl THEN 1 ELSE 0)]
 
-Emit(doc, s, e) == [FlushBlock(doc, s, s.group) EXCEPT !.elems = Append(@, e)]
+Emit(doc, s0, e) ==
+    LET s == Logged(s0, Ev(e.t, e.k, 0))
+    IN  [FlushBlock(doc, s, s.group) EXCEPT !.elems = Append(@, e)]
 
 Jump(doc, s, i) == SubtreeEnd(doc, i) + 1
 
@@ -92,10 +107,11 @@ Visit(doc, skip, s) ==
       [] k = "CMT"                      -> [s EXCEPT !.cur = i + 1]
       [] k \in SilentKinds              -> [s EXCEPT !.cur = Jump(doc, s, i)]
       [] k = "MRK" /\ skip              -> [s EXCEPT !.cur = Jump(doc, s, i)]
-      [] WithoutContent(doc, i)         -> [s EXCEPT !.flush = @ \/ EmptyBlockFlushes, !.cur = Jump(doc, s, i)]
+      [] WithoutContent(doc, i)         -> [(IF EmptyBlockFlushes THEN Logged(s, Ev("skip", "", 0)) ELSE s)
+                                               EXCEPT !.flush = @ \/ EmptyBlockFlushes, !.cur = Jump(doc, s, i)]
       [] k \in MediaLeaf                -> [Emit(doc, s, [t |-> "media", k |-> k, node |-> i]) EXCEPT !.cur = Jump(doc, s, i)]
       [] k = "DT"                       -> [Emit(doc, s, [t |-> "table", k |-> k, node |-> i]) EXCEPT !.cur = Jump(doc, s, i)]
-      [] k = "SKF"                      -> [s EXCEPT !.flush = TRUE, !.cur = Jump(doc, s, i)]
+      [] k = "SKF"                      -> [Logged(s, Ev("skip", "", 0)) EXCEPT !.flush = TRUE, !.cur = Jump(doc, s, i)]
       [] k = "LNK"                      -> \* a block holding one linked text: enter, text, leave
            LET s1 == [s EXCEPT !.flush = @ \/ ~InLi(doc, i)]
                s2 == AddText(doc, s1, i)
